@@ -11,6 +11,10 @@ seeds=sorted(d for d in os.listdir(V+'/seeded') if os.path.isfile(V+'/seeded/'+d
 if only: seeds=[s for s in seeds if s in only or s.split('-')[0] in only]
 env=dict(os.environ, GOFLAGS='-mod=mod', GOPROXY='off', GOSUMDB='off', GOTOOLCHAIN='local', GOWORK='off')
 subprocess.run([V+'/build.sh'], check=True, env=env)
+# a private copy of the analyser: rebuilding /verif/bin/ugolint while the sweep runs does not disturb it
+# SWEEP_BIN: another analyser build (e.g. the one committed when a round of seeds was delivered); SWEEP_OUT: where to write the results
+BIN=tempfile.mktemp(prefix='ugolint-sweep-'); shutil.copy2(os.environ.get('SWEEP_BIN',V+'/bin/ugolint'),BIN)
+import atexit; atexit.register(lambda: os.path.exists(BIN) and os.remove(BIN))
 def run_seed(seed):
     wt=tempfile.mkdtemp(prefix='wt-sweep-')
     os.rmdir(wt)
@@ -23,7 +27,7 @@ def run_seed(seed):
         ev=tempfile.mkdtemp(prefix='ev-')
         for p in props:
             e=dict(env, UGO_REPO=wt, UGOLINT_EVDIR=ev)
-            r=subprocess.run([V+'/bin/ugolint',p,'quick'],capture_output=True,text=True,env=e)
+            r=subprocess.run([BIN,p,'quick'],capture_output=True,text=True,env=e)
             lines=[l for l in r.stdout.splitlines() if ': violation:' in l or ': undecided:' in l]
             if r.returncode!=0:
                 res[p]=[l[:300] for l in lines][:6] or ['exit %d'%r.returncode]
@@ -37,8 +41,9 @@ with cf.ThreadPoolExecutor(max_workers=8) as ex:
         out[seed]=res
         own=seed.split('-')[0]
         print(seed, 'DETECTED by '+','.join(sorted(res)) if res else 'missed', '(own property: %s)'%('yes' if own in res else 'no'))
+RES=os.environ.get('SWEEP_OUT',V+'/seeded/RESULTS.json')
 prev={}
-if os.path.exists(V+'/seeded/RESULTS.json') and only:
-    prev=json.load(open(V+'/seeded/RESULTS.json'))
+if os.path.exists(RES) and only:
+    prev=json.load(open(RES))
 prev.update(out)
-json.dump(prev,open(V+'/seeded/RESULTS.json','w'),indent=1,sort_keys=True)
+json.dump(prev,open(RES,'w'),indent=1,sort_keys=True)
